@@ -555,6 +555,14 @@ def reject_if(ctx, rid, f, pred, pol, what, construct, success=None, min_edges=1
                 if ef[1] == pol and pred(ef[2]):
                     edges.append((bid, i, s, ef))
                     break
+    if len(edges) < min_edges and min_edges == 1 and until is None:
+        # no edge decides the condition alone (it is part of a composite evaluated as a value, `!(a && b)`):
+        # the same obligation read from the other end - every accepting event is under the opposite fact
+        from model import fact_holds
+        acc = [x for x in f.events() if succ_pred(x)]
+        if acc and all(fact_holds(f.facts_at(x), pred, not pol) for x in acc):
+            ctx.inst(rid, f.loc, '%s — every accepting return of %s is under the opposite condition' % (what, f.name))
+            return True
     if len(edges) < min_edges:
         ctx.violation(rid, f.name, construct + ':guard-absent', f.loc,
                       '%s — no branch on that condition is left in %s' % (what, f.name))
